@@ -46,11 +46,16 @@
    UGC's area as a link: SpaceSeparatedTokens, as regenerated, is closed under the rewriting of the
    link pass (Instances/UGCRelClosed.v, by the verified exploration of every residual), hence
    C20_ugc_every_input: UGCPolicy, every input, under the property's own proviso for del / ins.
+   Elements with style rules are covered by the same theorems: their premise style_stable (the style
+   filter returns a value it produced unchanged) is vacuous without style rules and follows from
+   parse_stable, a statement about the declaration parser (Proofs/StyleIdem.v,
+   C20_idempotent_with_styles); the harness re-applies the real sanitizeStyles to every value it
+   returned.
    Missing: policies with patterned forced attributes other than UGC's; carried by the idempotence oracle on every generated case of
    the stated policy class (link grid included), StrictPolicy and UGCPolicy. *)
 From Coq Require Import List NArith Bool.
 Import ListNotations.
-From BM Require Import Bytes Escape Tokenizer Policy Attrs Loop LoopProps EscapeProofs LinkProofs MiscProofs Url Style MapProofs SanRoundTrip PassThrough AttrIdem AttrProvenance AttrIdemLinks LinkIdem AttrIdemAccepted AttrIdemNoUrl AttrIdemRelevant AttrIdemRelClosed Utf8 Regex UGCRelClosed Builder GenTables GenScripts UGCSpec C04Inst PlainInst.
+From BM Require Import Bytes Escape Tokenizer Policy Attrs Loop LoopProps EscapeProofs LinkProofs MiscProofs Url Style MapProofs SanRoundTrip PassThrough AttrIdem AttrProvenance AttrIdemLinks LinkIdem AttrIdemAccepted AttrIdemNoUrl AttrIdemRelevant AttrIdemRelClosed StyleIdem Utf8 Regex UGCRelClosed Builder GenTables GenScripts UGCSpec C04Inst PlainInst.
 
 Theorem C20_escaping_not_applied_twice_partial : forall d,
   render_item (IText (unescape false (render_item (IText d)))) = render_item (IText d).
@@ -73,14 +78,14 @@ Proof. intros M U R I p. exact (sanitize_idempotent I p). Qed.
 (* the premise, for elements whose attributes no later pass rewrites (not a URL-carrying,
    crossorigin or sandbox element, no style rules) *)
 Theorem C20_attrs_stable_plain_elements : forall M U R (I : interp M U R) (p : policy M U R) n a aps,
-  linkable n = false -> has_style_policies I p n = false ->
+  linkable n = false -> style_stable M U R I p n ->
   clean_attrs I p n (clean_attrs I p n a aps) aps = clean_attrs I p n a aps.
 Proof. intros M U R I p n a aps. exact (clean_attrs_idem_plain I p n a aps). Qed.
 
 (* hence: policies all of whose elements are of that kind are idempotent on every input *)
 Corollary C20_idempotent_plain_elements : forall M U R (I : interp M U R) (p : policy M U R),
   plain_policy I p -> allowComments p = false ->
-  (forall n, elem_allowed I p n = true -> linkable n = false /\ has_style_policies I p n = false) ->
+  (forall n, elem_allowed I p n = true -> linkable n = false /\ style_stable M U R I p n) ->
   forall s, sanitize_bytes I p (sanitize_bytes I p s) = sanitize_bytes I p s.
 Proof.
   intros M U R I p Hplain Hnc Hel. apply (sanitize_idempotent I p Hplain Hnc).
@@ -91,7 +96,7 @@ Qed.
 (* the premise for link / URL elements whose forced attributes the policy does not allow *)
 Theorem C20_attrs_stable_forced_rejected : forall M U R (I : interp M U R) (p : policy M U R),
   srcRewriter p = None -> (forall raw u, valid_url I p raw = Some u -> valid_url I p u = Some u) ->
-  forall n aps a, has_style_policies I p n = false -> elem_stable_b p n aps = true ->
+  forall n aps a, style_stable M U R I p n -> elem_stable_b p n aps = true ->
   clean_attrs I p n (clean_attrs I p n a aps) aps = clean_attrs I p n a aps.
 Proof. intros M U R I p Hrw Hst n aps a. exact (elem_stable_sound I p Hrw Hst n aps a). Qed.
 
@@ -100,7 +105,7 @@ Theorem C20_idempotent_stable_elements : forall M U R (I : interp M U R) (p : po
   (forall raw u, valid_url I p raw = Some u -> valid_url I p u = Some u) ->
   forall s,
   (forall n a aps, In (TStart n a) (tokenize s) \/ In (TSelf n a) (tokenize s) -> element_policies I p n = Some aps ->
-     has_style_policies I p n = false /\ elem_stable_b p n aps = true) ->
+     style_stable M U R I p n /\ elem_stable_b p n aps = true) ->
   sanitize_bytes I p (sanitize_bytes I p s) = sanitize_bytes I p s.
 Proof.
   intros M U R I p Hplain Hnc Hrw Hst s Hel. apply (sanitize_idempotent_on I p Hplain Hnc).
@@ -120,7 +125,7 @@ Qed.
    on that element (rel on a/area/base/link, target on a, crossorigin on audio/img/link/script/video), or none of them *)
 Theorem C20_attrs_stable_forced_accepted_or_rejected : forall M U R (I : interp M U R) (p : policy M U R),
   srcRewriter p = None -> (forall raw u, valid_url I p raw = Some u -> valid_url I p u = Some u) ->
-  forall n aps a, has_style_policies I p n = false -> elem_stable2_b p n aps = true ->
+  forall n aps a, style_stable M U R I p n -> elem_stable2_b p n aps = true ->
   clean_attrs I p n (clean_attrs I p n a aps) aps = clean_attrs I p n a aps.
 Proof. intros M U R I p Hrw Hst n aps a. exact (elem_stable2_sound I p Hrw Hst n aps a). Qed.
 
@@ -129,7 +134,7 @@ Theorem C20_idempotent_stable_elements2 : forall M U R (I : interp M U R) (p : p
   (forall raw u, valid_url I p raw = Some u -> valid_url I p u = Some u) ->
   forall s,
   (forall n a aps, In (TStart n a) (tokenize s) \/ In (TSelf n a) (tokenize s) -> element_policies I p n = Some aps ->
-     has_style_policies I p n = false /\ elem_stable2_b p n aps = true) ->
+     style_stable M U R I p n /\ elem_stable2_b p n aps = true) ->
   sanitize_bytes I p (sanitize_bytes I p s) = sanitize_bytes I p s.
 Proof.
   intros M U R I p Hplain Hnc Hrw Hst s Hel. apply (sanitize_idempotent_on I p Hplain Hnc).
@@ -144,7 +149,7 @@ Theorem C20_idempotent_stable_elements3 : forall M U R (I : interp M U R) (p : p
   (forall raw u, valid_url I p raw = Some u -> valid_url I p u = Some u) ->
   forall s,
   (forall n a aps, In (TStart n a) (tokenize s) \/ In (TSelf n a) (tokenize s) -> element_policies I p n = Some aps ->
-     has_style_policies I p n = false /\ elem_stable3_b p n aps = true) ->
+     style_stable M U R I p n /\ elem_stable3_b p n aps = true) ->
   sanitize_bytes I p (sanitize_bytes I p s) = sanitize_bytes I p s.
 Proof.
   intros M U R I p Hplain Hnc Hrw Hst s Hel. apply (sanitize_idempotent_on I p Hplain Hnc).
@@ -163,6 +168,32 @@ Example C20_links_policy_stable :
           (elsAndAttrs c20_links_policy) = true /\ length (elsAndAttrs c20_links_policy) = 2%nat.
 Proof. split; vm_compute; reflexivity. Qed.
 
+(* elements with style rules: the premise asks that the style filter, applied to a value it produced, returns it unchanged
+   (`style_stable`; vacuous without style rules).  That holds whenever the declaration parser reads a rebuilt declaration
+   list back as the declarations it was built from, a statement about the parser oracle (douceur) which the harness checks on
+   every style value it sees *)
+Theorem C20_style_filter_stable : forall M U R (I : interp M U R) (p : policy M U R),
+  parse_stable M U R I -> forall n, style_stable M U R I p n.
+Proof. intros M U R I p H n. apply style_stable_of_parse_stable. exact H. Qed.
+
+Corollary C20_idempotent_with_styles : forall M U R (I : interp M U R) (p : policy M U R),
+  plain_policy I p -> allowComments p = false -> srcRewriter p = None ->
+  (forall raw u, valid_url I p raw = Some u -> valid_url I p u = Some u) -> parse_stable M U R I ->
+  forall s,
+  (forall n a aps, In (TStart n a) (tokenize s) \/ In (TSelf n a) (tokenize s) -> element_policies I p n = Some aps ->
+     elem_stable3_b p n aps = true) ->
+  sanitize_bytes I p (sanitize_bytes I p s) = sanitize_bytes I p s.
+Proof.
+  intros M U R I p Hplain Hnc Hrw Hst Hps s Hel.
+  apply (C20_idempotent_stable_elements3 M U R I p Hplain Hnc Hrw Hst).
+  intros n a aps Hin Hp. split; [apply C20_style_filter_stable; exact Hps | exact (Hel n a aps Hin Hp)].
+Qed.
+
+Lemma ugc_no_style_policies (I : interp smatcher unit unit) n : has_style_policies I ugc n = false.
+Proof. destruct ugc_no_styles_no_data as (E1 & E2 & E3 & _). unfold has_style_policies. rewrite E1, E2, E3. reflexivity. Qed.
+Lemma ugc_style_stable (I : interp smatcher unit unit) n : style_stable _ _ _ I ugc n.
+Proof. apply style_stable_none. apply ugc_no_style_policies. Qed.
+
 (* UGCPolicy: every element but area, del and ins meets the condition *)
 Definition ugc_unstable : list bytes := [B"area"; B"del"; B"ins"].
 Lemma ugc_elements_stable : forallb (fun e => mem (fst e) ugc_unstable || elem_stable_b ugc (fst e) (snd e)) (elsAndAttrs ugc) = true.
@@ -177,7 +208,7 @@ Proof.
   intros I Hst s Hno. destruct ugc_url_settings as (_ & _ & _ & Hrw & _).
   apply (C20_idempotent_stable_elements _ _ _ I ugc (ugc_plain I) ugc_no_comments Hrw Hst).
   intros n a aps Hin Hp. split.
-  - destruct ugc_no_styles_no_data as (E1 & E2 & E3 & _). unfold has_style_policies. rewrite E1, E2, E3. reflexivity.
+  - apply ugc_style_stable.
   - assert (Hl : lookup n (elsAndAttrs ugc) = Some aps).
     { unfold element_policies in Hp. destruct (lookup n (elsAndAttrs ugc)); [exact Hp|].
       unfold match_regex, matching_entries in Hp. rewrite ugc_no_patterns in Hp. cbn in Hp. discriminate. }
@@ -188,7 +219,7 @@ Qed.
 (* a tag whose URL attribute (href / cite / src, by element) does not survive the first pass is stable, whatever patterns
    the policy attaches, when the crossorigin and sandbox passes do not apply to the element *)
 Theorem C20_attrs_stable_no_surviving_url : forall M U R (I : interp M U R) (p : policy M U R) n aps a,
-  has_style_policies I p n = false -> (forall l, sandbox_pass p n l = l) -> (forall l, crossorigin_pass p n l = l) ->
+  style_stable M U R I p n -> (forall l, sandbox_pass p n l = l) -> (forall l, crossorigin_pass p n l = l) ->
   no_url_attr n (sanitize_attrs I p n a aps) ->
   sanitize_attrs I p n (sanitize_attrs I p n a aps) aps = sanitize_attrs I p n a aps.
 Proof. intros M U R I p n aps a. exact (fun H1 H2 H3 => sanitize_attrs_idem_no_url I p n aps H1 H2 H3 a). Qed.
@@ -208,8 +239,7 @@ Proof.
   intros I Hst s Hno. destruct ugc_url_settings as (_ & _ & _ & Hrw & _).
   apply (sanitize_idempotent_on I ugc (ugc_plain I) ugc_no_comments).
   intros n a aps Hin Hp.
-  assert (Hs : has_style_policies I ugc n = false).
-  { destruct ugc_no_styles_no_data as (E1 & E2 & E3 & _). unfold has_style_policies. rewrite E1, E2, E3. reflexivity. }
+  pose proof (ugc_style_stable I n) as Hs.
   destruct (mem n ugc_unstable) eqn:Eu.
   - destruct ugc_no_cross_no_sandbox as [Hc Hsb].
     assert (E : forall l, clean_attrs I ugc n l aps = sanitize_attrs I ugc n l aps) by (intros l; unfold clean_attrs; destruct l; reflexivity).
@@ -239,8 +269,7 @@ Proof.
   intros I Hmm Hst s Hno. destruct ugc_url_settings as (_ & _ & _ & Hrw & _).
   apply (sanitize_idempotent_on I ugc (ugc_plain I) ugc_no_comments).
   intros n a aps Hin Hp.
-  assert (Hs : has_style_policies I ugc n = false).
-  { destruct ugc_no_styles_no_data as (E1 & E2 & E3 & _). unfold has_style_policies. rewrite E1, E2, E3. reflexivity. }
+  pose proof (ugc_style_stable I n) as Hs.
   assert (Hl : lookup n (elsAndAttrs ugc) = Some aps).
   { unfold element_policies in Hp. destruct (lookup n (elsAndAttrs ugc)); [exact Hp|].
     unfold match_regex, matching_entries in Hp. rewrite ugc_no_patterns in Hp. cbn in Hp. discriminate. }
@@ -251,9 +280,9 @@ Proof.
   destruct (beqb n (B"area")) eqn:Earea.
   - apply beqb_eq in Earea. subst n. rewrite ugc_area_lookup in Hl. inversion Hl; subst aps. rewrite !E.
     apply (sanitize_attrs_idem_rel_closed I ugc (B"area") ugc_area_aps Hs); auto.
-    + intros v c1 c2. apply Fa_area_rel_mod. exact Hmm.
-    + intros nf nr. apply Fa_area_rel_app. exact Hmm.
-    + apply (url_unpatterned_sound _ _ _ I ugc); [exact Hs | vm_compute; reflexivity].
+    + intros v c1 c2. rewrite (ugc_no_style_policies I (B"area")). apply Fa_area_rel_mod. exact Hmm.
+    + intros nf nr. rewrite (ugc_no_style_policies I (B"area")). apply Fa_area_rel_app. exact Hmm.
+    + apply (url_unpatterned_sound _ _ _ I ugc). vm_compute. reflexivity.
   - destruct (mem n [B"del"; B"ins"]) eqn:Eu.
     + specialize (Hno n a aps Hin Eu Hp). rewrite E in Hno. rewrite !E.
       apply (sanitize_attrs_idem_no_url I ugc n aps Hs); assumption.
@@ -369,6 +398,7 @@ Print Assumptions C20_ugc_every_input.
 Print Assumptions C20_attrs_stable_forced_accepted_or_rejected.
 Print Assumptions C20_idempotent_stable_elements2.
 Print Assumptions C20_idempotent_stable_elements3.
+Print Assumptions C20_idempotent_with_styles.
 Print Assumptions C20_refuted_forced_attr_order_crossorigin.
 Print Assumptions C20_escaping_not_applied_twice_partial.
 Print Assumptions C20_refuted_forced_attr_order.
